@@ -4,6 +4,11 @@ import json, os
 ROOT = os.path.dirname(os.path.dirname(os.path.abspath(__file__)))
 
 CLAIMS = {
+ "C01": dict(
+  technique="round-trip PBT (rapid) over generated node forests + exhaustive enumeration of all small forests over a reduced alphabet",
+  text="Exploration: every ordered forest with <= 3 (quick) / <= 4 (thorough) nodes over 32 labels x BOM is enumerated completely, and random forests (<= 300 nodes, forced chains to depth 99, all registered and custom tags, records, role nodes inside/after families, hostile values, nested pointers) are built through the public API or by decoding harness-rendered text; each is encoded, decoded and compared node by node (tag, value, pointer, order, nesting, Go type, BOM). Shrunk failures are replay files.",
+  note="Trusted: the comparison walks public accessors only; legality of parts as stated in the property (values pre-trimmed with strings.TrimSpace). Role nodes before any family are outside the quantifier.",
+  design="6.1"),
  "C05": dict(
   technique="exhaustive enumeration of all days/months/years against an integer calendar oracle + rapid PBT for ordering and min/max",
   text="Exploration, exhaustive on the finite domain the property names: every one of the 3,652,059 days, 119,988 month-year and 9,999 year-only dates is built (struct and text route) and its bounds, length, Years containment and day-to-day monotonicity are compared with an integer Gregorian calendar cross-checked against time.Date; random day pairs and DateNodes lists cover IsBefore/IsAfter/Minimum/Maximum. Exhaustive sub-checks are marked in evidence.",
